@@ -55,3 +55,30 @@ func Transitions(name string) []int64 {
 	trans[name] = l
 	return l
 }
+
+// The process' local time zone.  A library that formats or parses instants must not depend on it, so the checks run
+// under a real zone with DST rules chosen from (seed, shard) - one run in nine under UTC - instead of whatever the
+// host happens to be set to (after C16-s15: a decoder reading UTC texts with time.Local).  Replay files record the
+// zone.
+
+var localZoneName = "UTC"
+
+func LocalZoneFor(seed, shard int) string {
+	k := (seed + shard) % (len(Zones) + 1)
+	if k == len(Zones) {
+		return "UTC"
+	}
+	return Zones[(k+3)%len(Zones)]
+}
+
+func UseLocalZone(name string) {
+	if name == "" || name == "UTC" {
+		time.Local = time.UTC
+		localZoneName = "UTC"
+		return
+	}
+	time.Local = Zone(name)
+	localZoneName = name
+}
+
+func LocalZoneName() string { return localZoneName }
